@@ -366,6 +366,11 @@ class Driver:
         body = _body(sig, op.get('body', []))
         raw = []
         forge = op.get('forge') or {}
+        if isinstance(forge.get('sender'), str) and forge['sender'].startswith('{own'):
+            # "{own-N}": the writer's own unique name without its last N characters; "{own+X}": with X appended
+            own = c.unique or ':0.0'
+            spec = forge['sender'][4:-1]
+            forge = dict(forge, sender=own[:-int(spec[1:])] if spec[0] == '-' else own + spec[1:])
         if 'sender' in forge:
             raw.append((F_SENDER, 's', forge['sender']))
         if forge.get('ci'):
